@@ -1258,3 +1258,39 @@ Lemma shared_list_leaks :
     = Some (NotFound 404) /\
   mserve [ga; gb] 0 (bs "zzz"%string) (bs "/"%string) 1 = Some (Site 1 (bs "/"%string)).
 Proof. vm_compute. split; reflexivity. Qed.
+
+(* ---- request sequences: the routing of request i is a function of the site set and of request
+   i alone ---- *)
+Lemma serve_seq_map : forall st qs,
+  serve_seq st qs = map (fun q => mserve_st st (rq_srv q) (rq_host q) (rq_path q) (rq_proto q)) qs.
+Proof.
+  intros st qs. induction qs as [|q t IH]; [reflexivity|].
+  simpl. rewrite IH. reflexivity.
+Qed.
+
+Lemma routing_is_stateless : forall groups qs k q g,
+  nth_error qs k = Some q -> nth_error groups (rq_srv q) = Some g ->
+  nth_error (serve_seq (process groups) qs) k
+    = Some (Some (spec (fst g) (snd g) (rq_host q) (rq_path q) (rq_proto q))).
+Proof.
+  intros groups qs k q g Hq Hg. rewrite serve_seq_map.
+  rewrite (map_nth_error _ _ _ Hq). f_equal.
+  exact (listener_routes_as_spec groups (rq_srv q) g (rq_host q) (rq_path q) (rq_proto q) Hg).
+Qed.
+
+Lemma request_history_irrelevant : forall groups pre q,
+  serve_seq (process groups) (pre ++ [q])
+    = serve_seq (process groups) pre ++ [mserve groups (rq_srv q) (rq_host q) (rq_path q) (rq_proto q)].
+Proof.
+  intros groups pre q. rewrite !serve_seq_map, map_app. reflexivity.
+Qed.
+
+Lemma unknown_host_cache_poisons :
+  let sites := [(bs "example.com/app"%string, 1); (bs "example.com/api"%string, 2)] in
+  let q1 := (bs "example.com"%string, bs "/favicon.ico"%string, 1) in
+  let q2 := (bs "example.com"%string, bs "/app/index"%string, 1) in
+  let r q := {| rq_srv := 0; rq_host := fst (fst q); rq_path := snd (fst q); rq_proto := snd q |} in
+  serve_seq_cached (tbuild sites) default_fallbacks [] [q1; q2] = [NotFound 404; NotFound 404] /\
+  serve_seq_cached (tbuild sites) default_fallbacks [] [q2; q1; q2] = [Site 1 (bs "/app"%string); NotFound 404; NotFound 404] /\
+  serve_seq (process [(sites, [])]) [r q1; r q2] = [Some (NotFound 404); Some (Site 1 (bs "/app"%string))].
+Proof. vm_compute. repeat split; reflexivity. Qed.
